@@ -17,6 +17,7 @@ pub fn def() -> CheckDef {
         assumptions: &["monotone simulated clock", "actions are judged at quiescent points (layer 1); racing client threads are the layer-2 part of this check", "no storage errors are injected"],
         probes: &["probe.terminal_act_targeted", "probe.non_act_targeted", "probe.unknown_id", "probe.missing_output", "probe.rejected_checked_for_effects", "probe.duplicate_action"],
         quick_cases: 3000,
+        no_shrink: &[],
     }
 }
 
